@@ -1,8 +1,8 @@
 /* Specification vocabulary for ikos::z_number and ikos::q_number (lib/bignums.cpp), property C20.
  * Shared by contracts.c (CBMC, against models/gmpmodel.c) and replay.cpp (native, against the real GMP: the real
  * __mpz_struct has the same layout, so the same value functions read real z_numbers).
- * Z = lowering of z_number: f0.a[0] is the __mpz_struct { f0 = _mp_alloc, f1 = _mp_size, f2 = _mp_d }.
- * Q = lowering of q_number: f0.a[0] is the __mpq_struct { f0 = _mp_num, f1 = _mp_den }. */
+ * Z = lowering of z_number: f0.a is the __mpz_struct { f0 = _mp_alloc, f1 = _mp_size, f2 = _mp_d }.
+ * Q = lowering of q_number: f0.a is the __mpq_struct { f0 = _mp_num, f1 = _mp_den }. */
 #ifndef BIGNUMS_SPEC_H
 #define BIGNUMS_SPEC_H
 #include "verif.h"
@@ -11,9 +11,9 @@ typedef struct S_class_ikos__z_number Z;
 typedef struct S_class_ikos__q_number Q;
 typedef struct S_struct___mpz_struct MPZ;
 typedef struct S_struct___mpq_struct MPQ;
-#define MP(z) (&(z)->f0.a[0])
-#define QNUM(q) (&(q)->f0.a[0].f0)
-#define QDEN(q) (&(q)->f0.a[0].f1)
+#define MP(z) (&(z)->f0.a)
+#define QNUM(q) (&(q)->f0.a.f0)
+#define QDEN(q) (&(q)->f0.a.f1)
 #define NLIMB 2
 #define LIMBBYTES (NLIMB * sizeof(uint64_t))
 #define P2(k) (((i128)1) << (k))
